@@ -62,7 +62,7 @@ int main(void) {
     const char* name = w[3]; size_t len = strlen(w[4]) / 2; size_t i;
     wasmMemory mem; memset(&mem, 0, sizeof mem); mem.data = data; mem.size = (U32)len; mem.pages = 1; mem.maxPages = 1;
 #ifdef WASM_MUTEX_TYPE
-    pthread_mutex_init(&mem.mutex, NULL); mem.shared = true;
+    pthread_mutex_init(&mem.mutex, NULL); mem.shared = getenv("MEMOPS_UNSHARED") ? false : true;   /* atomic accesses are valid on unshared memories too */
 #endif
     for (i = 0; i < len; i++) data[i] = (U8)(hexv(w[4][2*i]) * 16 + hexv(w[4][2*i+1]));
     V a[4]; int na = n - 5;
